@@ -252,4 +252,107 @@ theorem buildIndex_strict (recs : List Rec) : StrictSorted (buildIndex recs) := 
   | nil => simp [dedup, StrictSorted]
   | cons e rest => exact dedupAux_strict e rest h'
 
+
+/-! ### completeness: no spurious miss -/
+
+/-- the slot with the greatest address `≤ a` is the one the lookup uses -/
+theorem pick_of_slot {ix : List Entry} (hs : StrictSorted ix) {i : Nat} {e : Entry} {a : Nat}
+    (he : ix[i]? = some e) (h1 : e.addr ≤ a) (h2 : ∀ nxt, ix[i + 1]? = some nxt → a < nxt.addr) :
+    pick ix a = some i := by
+  unfold pick
+  apply pickIndex_of_spec _ _ i e.addr (strict_keys_le hs) (by simp [List.getElem?_map, he]) h1
+  intro k' hk'
+  cases hn : ix[i + 1]? with
+  | none => simp [List.getElem?_map, hn] at hk'
+  | some nxt =>
+    simp [List.getElem?_map, hn] at hk'
+    have := h2 nxt hn
+    omega
+
+/-- a readable PUBLIC record answers every address from its own up to the next symbol address (or without
+bound if it is the last); a readable FUNC record answers every address of its own range below the next
+symbol address -/
+theorem lookupRel_complete {f : File} {ix : List Entry} (hs : StrictSorted ix) {i : Nat} {e : Entry} {a : Nat}
+    (he : ix[i]? = some e) (h1 : e.addr ≤ a) (h2 : ∀ nxt, ix[i + 1]? = some nxt → a < nxt.addr) :
+    (∀ n, e.kind = .public_ → f.pubAt e.offset = some n →
+      lookupRel f ix a = .hit ⟨e.addr, (ix[i + 1]?).map (fun nxt => nxt.addr - e.addr), n⟩) ∧
+    (∀ size n, e.kind = .func → f.funcAt e.offset = some (size, n) → a < e.addr + size →
+      lookupRel f ix a = .hit ⟨e.addr, some size, n⟩) := by
+  have hp := pick_of_slot hs he h1 h2
+  constructor
+  · intro n hk hn
+    unfold lookupRel
+    rw [hp]
+    simp only
+    rw [he]
+    simp only [answer, hk, hn]
+    cases hnx : ix[i + 1]? with
+    | none => simp
+    | some nxt =>
+      have := h2 nxt hnx
+      simp
+      omega
+  · intro size n hk hn hlt
+    unfold lookupRel
+    rw [hp]
+    simp only
+    rw [he]
+    simp only [answer, hk, hn]
+    rw [if_neg (by omega)]
+
+/-! ### per-element cache transparency -/
+
+theorem iterElemC_spec (f : File) (ix : List Entry) (c : Cache) (i : Nat) (hc : CacheOk f c) :
+    (iterElemC f ix c i).2 = iterElem f ix i ∧ CacheOk f (iterElemC f ix c i).1 := by
+  unfold iterElemC iterElem
+  cases hi : ix[i]? with
+  | none => exact ⟨rfl, hc⟩
+  | some e =>
+    simp only [Option.bind_some]
+    cases hk : e.kind with
+    | public_ =>
+      have hg := Memo.get_spec f.pubAt c.pubs e.offset hc.1
+      simp only
+      refine ⟨?_, hg.2, hc.2⟩
+      rw [hg.1]
+      simp [entryName, hk]
+    | func =>
+      have hg := Memo.get_spec f.funcAt c.funcs e.offset hc.2
+      simp only
+      refine ⟨?_, hc.1, hg.2⟩
+      rw [hg.1]
+      simp only [entryName, hk]
+      cases f.funcAt e.offset <;> rfl
+    | other =>
+      simp only
+      exact ⟨by simp [entryName, hk], hc⟩
+
+theorem runSteps_spec (f : File) (ix : List Entry) (steps : List Step) : ∀ (c : Cache), CacheOk f c →
+    runSteps f ix c steps = steps.map (pureStep f ix) := by
+  induction steps with
+  | nil => intro c _; rfl
+  | cons st rest ih =>
+    intro c hc
+    cases st with
+    | lookup a =>
+      have := lookupC_spec f ix c a hc
+      simp only [runSteps, List.map_cons, pureStep]
+      rw [this.1, ih _ this.2]
+    | elem i =>
+      have := iterElemC_spec f ix c i hc
+      simp only [runSteps, List.map_cons, pureStep]
+      rw [this.1, ih _ this.2]
+
+/-- the elements `0..symbol_count()` put together are the enumeration -/
+theorem iterSymbols_eq_elems (f : File) (ix : List Entry) :
+    (List.range ix.length).filterMap (iterElem f ix) = iterSymbols f ix := by
+  have := filterMap_range_getElem? ix (fun _ e => (entryName f e).map fun n => (e.addr, n))
+  unfold iterElem iterSymbols
+  rw [this]
+  clear this
+  generalize 0 = k
+  induction ix generalizing k with
+  | nil => rfl
+  | cons e rest ih => simp only [List.zipIdx_cons, List.filterMap_cons]; rw [ih]
+
 end Breakpad
